@@ -644,6 +644,8 @@ struct signal_runner
           ms[static_cast<std::size_t>(si)].clear();
           for (int id : ms[static_cast<std::size_t>(sj)])
             owner[id] = sj;
+          if (!Si.sig->empty())
+            fail("signal-move-ctor/source-not-empty", "the moved-from signal reports connections");
         }
         break;
       case 9:
@@ -660,6 +662,15 @@ struct signal_runner
             owner[id] = sj;
           *Sj.sig = std::move(*Si.sig);
           Sj.usable = true;
+          // the moved-from source took nothing over: it has no connections (one look at it, then it is only destroyed
+          // or assigned to - its combiner was moved away as well)
+          if (!Si.sig->empty())
+            fail("signal-move-assign/source-not-empty", "the moved-from signal reports connections (the target had " + std::to_string(de ? 0 : 1) + "+ before)");
+          else
+          {
+            call(si, 2);
+            VF_COUNT("signal/moved-from-source-inspected");
+          }
           Si.usable = false;
         }
         break;
